@@ -46,13 +46,60 @@ def compute_golden(tuples, seed, label, workers, scratch, cold_budget=40):
         cold.update(r['cold'])
         reads += r.get('clock_reads', 0)
     by_key = {t['key']: t for t in tuples}
+    part_of = {}
+    for i, part in enumerate(parts):
+        for t in part:
+            part_of[t['key']] = i
     dis = []
     for k in sorted(A):
         if A[k] != B.get(k):
-            dis.append({'tuple': by_key[k], 'kind': 'cached-public-path-vs-fresh-uncached-model', 'a': A[k], 'b': B.get(k)})
+            dis.append({'tuple': by_key[k], 'kind': 'cached-public-path-vs-fresh-uncached-model', 'a': A[k], 'b': B.get(k),
+                        'history': parts[part_of[k]]})
         elif k in cold and cold[k] != A[k]:
-            dis.append({'tuple': by_key[k], 'kind': 'warm-vs-cold-model', 'a': A[k], 'b': cold[k]})
+            dis.append({'tuple': by_key[k], 'kind': 'warm-vs-cold-model', 'a': A[k], 'b': cold[k], 'history': parts[part_of[k]]})
     return A, dis, {'golden_jobs': len(jobs), 'cold_rechecks': len(cold), 'golden_clock_reads': reads}
+
+
+def golden_pair(tuples, seed, label, scratch, cold_budget=10 ** 6):
+    """Pass A and pass B over exactly this ordered tuple list (one job each). -> (A, B, cold)"""
+    jobs = [{'kind': 'callsim-golden', 'pass': 'A', 'tuples': tuples, 'hashseed': orch.hashseed_for(seed, label, 'A')},
+            {'kind': 'callsim-golden', 'pass': 'B', 'tuples': tuples, 'cold_budget': cold_budget,
+             'hashseed': orch.hashseed_for(seed, label, 'B')}]
+    ra, rb = orch.run_jobs(jobs, 2, 3600, scratch)
+    return ra['golden'], rb['golden'], rb['cold']
+
+
+def golden_disagrees(tuples, key, seed, scratch):
+    a, b, cold = golden_pair(tuples, seed, 'golden-replay', scratch)
+    return a.get(key) != b.get(key) or (key in cold and cold[key] != a.get(key))
+
+
+def minimise_golden(d, seed, scratch, budget=14):
+    """Shrink the tuple history of a golden-pass disagreement (the failing tuple is always kept)."""
+    key = d['tuple']['key']
+    hist = list(d['history'])
+    tried = 0
+    if golden_disagrees([d['tuple']], key, seed, scratch):
+        return [d['tuple']], 1
+    n = 2
+    while len(hist) > 2 and tried < budget:
+        chunk = max(1, len(hist) // n)
+        reduced = False
+        for i in range(0, len(hist), chunk):
+            cand = [t for j, t in enumerate(hist) if not (i <= j < i + chunk) or t['key'] == key]
+            tried += 1
+            if len(cand) < len(hist) and golden_disagrees(cand, key, seed, scratch):
+                hist = cand
+                n = max(2, n - 1)
+                reduced = True
+                break
+            if tried >= budget:
+                break
+        if not reduced:
+            if chunk == 1:
+                break
+            n = min(len(hist), n * 2)
+    return hist, tried
 
 
 def build_probes(all_specs):
@@ -170,9 +217,9 @@ def involved_tuples(runs, ctx_pool):
     return [ctx_pool[k] for k in sorted(keys)]
 
 
-def replay_runs(prop, runs, hashseed, import_on_thread, ctx_file, scratch):
+def replay_runs(prop, runs, hashseed, import_on_thread, ctx_file, scratch, prewarm=None):
     rep = orch.run_jobs([{'kind': 'callsim-replay', 'prop': prop, 'runs': runs, 'ctx_file': ctx_file, 'hashseed': hashseed,
-                          'import_on_thread': import_on_thread, 'hang_dump_s': 1500}], 1, 2400, scratch)[0]
+                          'import_on_thread': import_on_thread, 'hang_dump_s': 1500, 'prewarm': prewarm}], 1, 2400, scratch)[0]
     return rep['outcomes']
 
 
@@ -271,7 +318,7 @@ def _shrink_plan_candidates(plan, recorded, cid, op_idx):
 def _reproduce_many(prop, cands, v, hashseed, iot, ctx_file, scratch, workers):
     """Run every candidate (a list of runs) in its own fresh process, in parallel. -> list of bool."""
     jobs = [{'kind': 'callsim-replay', 'prop': prop, 'runs': runs, 'ctx_file': ctx_file, 'hashseed': hashseed,
-             'import_on_thread': iot, 'hang_dump_s': 1500} for runs in cands]
+             'import_on_thread': iot, 'hang_dump_s': 1500, 'prewarm': v.get('prewarm')} for runs in cands]
     reps = orch.run_jobs(jobs, workers, 2400, scratch)
     return [any(x['class'] == v['class'] for x in r['outcomes'][-1]['violations']) for r in reps]
 
@@ -386,9 +433,12 @@ def run_check(prop, tier, seed, workers, batches=None, runs=None, do_minimise=Tr
                 vclass = 'C02|%s|%s|golden-%s' % (d['tuple']['kind'], d['tuple']['culture'], d['kind'])
                 if vclass in classes:
                     continue
+                hist, tried = (minimise_golden(d, seed, scratch) if do_minimise and n_rep == 0 else (d['history'], 0))
+                d = {k: v for k, v in d.items() if k != 'history'}
                 classes[vclass] = {'failure': d}
                 path = write_replay(prop, seed, n_rep, {'check': prop, 'engine': 'callsim', 'mode': 'golden', 'seed': seed,
-                                                        'class': vclass, 'tuples': [d['tuple']], 'failure': d})
+                                                        'class': vclass, 'tuples': hist, 'key': d['tuple']['key'], 'failure': d,
+                                                        'minimisation': {'candidates': tried, 'history': len(hist)}})
                 n_rep += 1
                 lines.append('VIOLATION property=%s replay=%s' % (prop, path))
         jobs = batch_jobs(prop, tier, seed, ctx_file, batches, runs)
@@ -408,6 +458,7 @@ def run_check(prop, tier, seed, workers, batches=None, runs=None, do_minimise=Tr
             doc = {'check': prop, 'engine': 'callsim', 'mode': 'runs', 'seed': seed, 'tier': tier, 'class': vclass,
                    'hashseed': orch.hashseed_for(seed, prop, v['batch']), 'import_on_thread': v['batch'] % 2 == 1,
                    'found_at': {'batch': v['batch'], 'run': v['run'], 'client': v['cid'], 'op': v['op_idx']},
+                   'prewarm': v.get('prewarm'),
                    'runs': runs_min, 'tuples': involved_tuples(runs_min, {t['key']: t for t in ctx['pool_list']}),
                    'failure': v['failure'], 'minimisation': {k: minfo[k] for k in minfo if k != 'last'}}
             path = write_replay(prop, seed, n_rep, doc)
@@ -506,14 +557,14 @@ def write_ev(prop, tier, seed, agg, wall, nviol, jobs):
 def replay_main(prop, doc, path, scratch):
     seed = doc.get('seed', 0)
     tuples = doc['tuples']
-    golden, dis, _ = compute_golden(tuples, seed, prop + '-replay-golden', 4, scratch, cold_budget=len(tuples))
     if doc.get('mode') == 'golden':
-        if dis:
-            print('reproduced: %s' % json.dumps(dis[0], ensure_ascii=False)[:600])
+        if golden_disagrees(tuples, doc.get('key') or tuples[-1]['key'], seed, scratch):
+            print('reproduced: the cached public path and a fresh uncached model (other order, other hash seed) disagree on %r' % doc.get('key'))
             print('VIOLATION property=%s replay=%s' % (prop, path))
             return 1
         print('not reproduced on this tree (golden passes agree)')
         return 0
+    golden, dis, _ = compute_golden(tuples, seed, prop + '-replay-golden', 4, scratch, cold_budget=len(tuples))
     reg = orch.run_jobs([{'kind': 'callsim-registered', 'hashseed': 0}], 1, 600, scratch)[0]
     ctx = {'pool_list': tuples, 'golden': golden, 'registered': reg['pairs'], 'supported': reg['supported'],
            'probes': {}, 'probe_golden': {}, 'step_cap': 5_000_000, 'step_estimate': {}}
@@ -525,7 +576,8 @@ def replay_main(prop, doc, path, scratch):
     ctx_file = os.path.join(scratch, 'ctx-replay.json')
     with open(ctx_file, 'w', encoding='utf-8') as f:
         json.dump(ctx, f, ensure_ascii=False)
-    outs = replay_runs(prop, doc['runs'], doc.get('hashseed', 0), doc.get('import_on_thread', False), ctx_file, scratch)
+    outs = replay_runs(prop, doc['runs'], doc.get('hashseed', 0), doc.get('import_on_thread', False), ctx_file, scratch,
+                       doc.get('prewarm'))
     last = outs[-1]
     hit = [x for x in last['violations'] if x['class'] == doc['class']]
     if hit:
